@@ -226,13 +226,287 @@ func (g *gen) basic(family string, i int, seed uint64) *scenario {
 	return sc
 }
 
+// race: the caches are taken, then the world changes under the controller
+// (before the sync or between two of its requests)
+func (g *gen) race(i int, seed uint64) *scenario {
+	r := g.r
+	sc := g.basic("race", i, seed)
+	sc.Warmup = true
+	sc.Setup = nil
+	sc.Features = nil
+	// after the warm-up the hook changes its mind: drop some children, modify others
+	h2 := sc.Hook
+	h2.Children = nil
+	for _, c := range sc.Hook.Children {
+		switch r.Intn(3) {
+		case 0: // no longer desired
+		case 1:
+			c2 := runtime.DeepCopyJSON(c)
+			c2["spec"].(J)["replicas"] = int64(5)
+			h2.Children = append(h2.Children, c2)
+		default:
+			h2.Children = append(h2.Children, c)
+		}
+	}
+	sc.Hook2 = &h2
+	pns, _ := sc.Parent["metadata"].(J)["namespace"].(string)
+	var ops []extOp
+	for _, c := range sc.Hook.Children {
+		md := c["metadata"].(J)
+		ns, _ := md["namespace"].(string)
+		k := resByKind(c["apiVersion"].(string), c["kind"].(string))
+		if ns == "" && k.Namespaced {
+			ns = pns
+		}
+		ref := extOp{APIVersion: c["apiVersion"].(string), Kind: c["kind"].(string), Namespace: ns, Name: md["name"].(string)}
+		switch r.Intn(6) {
+		case 0:
+			ref.Op = "recreate"
+			sc.Features = append(sc.Features, "recreated-after-cache")
+		case 1:
+			ref.Op = "steal"
+			sc.Features = append(sc.Features, "ownership-edit-after-cache")
+		case 2:
+			ref.Op = "orphan"
+			sc.Features = append(sc.Features, "ownership-edit-after-cache")
+		case 3:
+			ref.Op = "delete"
+			sc.Features = append(sc.Features, "deleted-after-cache")
+		case 4:
+			ref.Op, ref.Data = "edit", J{"spec": J{"replicas": int64(11)}}
+			sc.Features = append(sc.Features, "edited-after-cache")
+		default:
+			continue
+		}
+		ops = append(ops, ref)
+	}
+	rs := roundSpec{}
+	if r.Bool() {
+		rs.LateOps = ops
+	} else {
+		rs.MidOps = map[string][]extOp{}
+		for _, op := range ops {
+			idx := fmt.Sprint(r.Intn(6))
+			rs.MidOps[idx] = append(rs.MidOps[idx], op)
+		}
+	}
+	sc.Rounds = []roundSpec{rs, {}}
+	return sc
+}
+
+var faultKinds = []J{
+	{"code": 404, "reason": "NotFound"}, {"code": 409, "reason": "Conflict"}, {"code": 409, "reason": "AlreadyExists"},
+	{"code": 410, "reason": "Gone"}, {"code": 422, "reason": "Invalid"}, {"code": 500, "reason": "InternalError"},
+	{"code": 504, "reason": "Timeout"},
+}
+
+func (sc *scenario) parentRef() extOp {
+	md := sc.Parent["metadata"].(J)
+	ns, _ := md["namespace"].(string)
+	return extOp{APIVersion: sc.Parent["apiVersion"].(string), Kind: sc.Parent["kind"].(string), Namespace: ns, Name: md["name"].(string)}
+}
+
+// lifecycle: the parent is created, (un)matched, deleted with every kind of propagation; finalize hook on/off
+func (g *gen) lifecycle(i int, seed uint64) *scenario {
+	r := g.r
+	sc := g.basic("lifecycle", i, seed)
+	sc.Ctl.Finalize = r.Chance(2, 3)
+	sc.Hook.FinalizedIfEmpty = r.Chance(2, 3)
+	sc.Hook.FinalizedAlways = r.Chance(1, 6)
+	if len(sc.Hook.Children) > 0 && r.Bool() {
+		sc.Hook.FinalizeChildren = sc.Hook.Children[:r.Intn(len(sc.Hook.Children))]
+	}
+	if sc.Ctl.CtlSelector == nil && r.Chance(1, 2) {
+		sc.Ctl.CtlSelector = map[string]string{"managed": "yes"}
+		sc.Parent["metadata"].(J)["labels"] = J{"managed": "yes"}
+	}
+	sc.Warmup = r.Chance(4, 5)
+	sc.Setup = nil
+	sc.Features = nil
+	sc.Rounds = nil
+	nr := 2 + r.Intn(3)
+	for j := 0; j < nr; j++ {
+		rs := roundSpec{}
+		ref := sc.parentRef()
+		switch r.Intn(7) {
+		case 0:
+			ref.Op, ref.Data = "deleting", nil
+			sc.Features = append(sc.Features, "parent-deleted-background")
+			rs.PreOps = append(rs.PreOps, ref)
+		case 1:
+			ref.Op, ref.Data = "deleting", J{"finalizers": A{"foregroundDeletion"}}
+			sc.Features = append(sc.Features, "parent-deleted-foreground")
+			rs.PreOps = append(rs.PreOps, ref)
+		case 2:
+			ref.Op, ref.Data = "deleting", J{"finalizers": A{"orphan"}}
+			sc.Features = append(sc.Features, "parent-deleted-orphan")
+			rs.PreOps = append(rs.PreOps, ref)
+		case 3:
+			if sc.Ctl.CtlSelector != nil {
+				ref.Op, ref.Data = "relabel", J{"managed": "no"}
+				sc.Features = append(sc.Features, "parent-unmatched")
+				rs.PreOps = append(rs.PreOps, ref)
+			}
+		case 4:
+			ref.Op, ref.Data = "deleting", J{"finalizers": A{"example.com/other"}}
+			sc.Features = append(sc.Features, "parent-deleted-foreign-finalizer")
+			if r.Bool() {
+				rs.LateOps = append(rs.LateOps, ref) // live parent deleting, cached parent alive
+				sc.Features = append(sc.Features, "parent-deleting-after-cache")
+			} else {
+				rs.PreOps = append(rs.PreOps, ref)
+			}
+		}
+		if r.Chance(1, 4) {
+			rs.Faults = map[string]J{fmt.Sprint(r.Intn(4)): faultKinds[r.Intn(len(faultKinds))]}
+			sc.Features = append(sc.Features, "fault")
+		}
+		sc.Rounds = append(sc.Rounds, rs)
+	}
+	return sc
+}
+
+// statusy: the live parent differs from the cached one, the status write meets conflicts and errors
+func (g *gen) statusy(i int, seed uint64) *scenario {
+	r := g.r
+	sc := g.basic("status", i, seed)
+	switch r.Intn(5) {
+	case 0:
+		sc.Hook.Status = J{"observedGeneration": int64(99), "nested": J{"a": A{int64(1), "x"}}}
+	case 1:
+		sc.Hook.Status = J{}
+	case 2:
+		sc.Hook.NullStatus, sc.Hook.Status = true, nil
+	case 3:
+		sc.Hook.Status = J{"conditions": A{J{"type": "Updated", "status": "False"}}, "replicas": int64(3)}
+	}
+	sc.Rounds = nil
+	for j := 0; j < 2+r.Intn(2); j++ {
+		rs := roundSpec{}
+		ref := sc.parentRef()
+		switch r.Intn(6) {
+		case 0:
+			ref.Op, ref.Data = "edit", J{"spec": J{"selector": sc.Parent["spec"].(J)["selector"], "replicas": int64(7)}}
+			rs.LateOps = append(rs.LateOps, ref)
+			sc.Features = append(sc.Features, "parent-edited-after-cache")
+		case 1:
+			ref.Op = "recreate"
+			rs.LateOps = append(rs.LateOps, ref)
+			sc.Features = append(sc.Features, "parent-recreated-after-cache")
+		case 2:
+			ref.Op, ref.Data = "edit", J{"status": J{"stale": true}}
+			rs.PreOps = append(rs.PreOps, ref)
+			sc.Features = append(sc.Features, "parent-status-edited")
+		}
+		if r.Chance(1, 2) {
+			rs.Faults = map[string]J{}
+			for x := 0; x < 1+r.Intn(2); x++ {
+				rs.Faults[fmt.Sprint(r.Intn(8))] = faultKinds[r.Intn(len(faultKinds))]
+			}
+			sc.Features = append(sc.Features, "fault")
+		}
+		sc.Rounds = append(sc.Rounds, rs)
+	}
+	return sc
+}
+
+// adoptrace: orphans are there to adopt while the world moves
+func (g *gen) adoptrace(i int, seed uint64) *scenario {
+	r := g.r
+	sc := g.basic("adoptrace", i, seed)
+	sc.Warmup = true
+	sc.Setup = nil
+	sc.Features = nil
+	pns, _ := sc.Parent["metadata"].(J)["namespace"].(string)
+	var late []extOp
+	for _, c := range sc.Hook.Children {
+		md := c["metadata"].(J)
+		ns, _ := md["namespace"].(string)
+		k := resByKind(c["apiVersion"].(string), c["kind"].(string))
+		if ns == "" && k.Namespaced {
+			ns = pns
+		}
+		ref := extOp{APIVersion: c["apiVersion"].(string), Kind: c["kind"].(string), Namespace: ns, Name: md["name"].(string)}
+		o := ref
+		switch r.Intn(4) {
+		case 0:
+			o.Op = "orphan"
+			sc.Features = append(sc.Features, "orphan-matching")
+		case 1:
+			o.Op, o.Data = "relabel", J{"app": "nomatch"}
+			sc.Features = append(sc.Features, "owned-nonmatching")
+		case 2:
+			o.Op = "orphan"
+			sc.Setup = append(sc.Setup, o)
+			o.Op, o.Data = "deleting", J{"finalizers": A{"example.com/hold"}}
+			sc.Features = append(sc.Features, "orphan-deleting")
+		default:
+			continue
+		}
+		sc.Setup = append(sc.Setup, o)
+		l := ref
+		switch r.Intn(5) {
+		case 0:
+			l.Op = "steal"
+			sc.Features = append(sc.Features, "stolen-after-cache")
+		case 1:
+			l.Op, l.Data = "relabel", J{"app": "moved"}
+			sc.Features = append(sc.Features, "relabelled-after-cache")
+		case 2:
+			l.Op = "recreate"
+			sc.Features = append(sc.Features, "recreated-after-cache")
+		default:
+			continue
+		}
+		late = append(late, l)
+	}
+	rs := roundSpec{}
+	p := sc.parentRef()
+	switch r.Intn(5) {
+	case 0:
+		p.Op, p.Data = "deleting", J{"finalizers": A{"example.com/other"}}
+		late = append(late, p)
+		sc.Features = append(sc.Features, "parent-deleting-after-cache")
+	case 1:
+		p.Op = "recreate"
+		late = append(late, p)
+		sc.Features = append(sc.Features, "parent-recreated-after-cache")
+	case 2:
+		p.Op, p.Data = "deleting", J{"finalizers": A{"example.com/other"}}
+		rs.PreOps = append(rs.PreOps, p)
+		sc.Features = append(sc.Features, "parent-deleting")
+	}
+	if r.Bool() {
+		rs.LateOps = late
+	} else {
+		rs.MidOps = map[string][]extOp{}
+		for _, op := range late {
+			idx := fmt.Sprint(r.Intn(5))
+			rs.MidOps[idx] = append(rs.MidOps[idx], op)
+		}
+	}
+	sc.Rounds = []roundSpec{rs, {}}
+	return sc
+}
+
 func generateScenarios(prop string, seed uint64, n int, adv bool) []*scenario {
 	root := vh.NewRng(seed ^ 0xc0de)
 	var out []*scenario
 	for i := 0; i < n; i++ {
 		r, s := root.Fork()
 		g := &gen{r: r, adv: adv}
-		out = append(out, g.basic("basic", i, s))
+		switch {
+		case prop == "C02" && i%2 == 1:
+			out = append(out, g.race(i, s))
+		case prop == "C04" && i%2 == 1:
+			out = append(out, g.adoptrace(i, s))
+		case prop == "C10" && i%4 != 0:
+			out = append(out, g.lifecycle(i, s))
+		case prop == "C11" && i%4 != 0:
+			out = append(out, g.statusy(i, s))
+		default:
+			out = append(out, g.basic("basic", i, s))
+		}
 	}
 	return out
 }
